@@ -99,10 +99,8 @@ Definition run_top (dbg : bool) (k : rkind) (v : view) (b : buf) (o : top) : res
   | OCopyFromTooDee _ sc sr cells =>
       only (op_copy_from_toodee k v b (sc, sr) (chunks sr sc cells))
   | OCopyWithin x0 y0 x1 y1 dx dy =>
-      if fits32 dx && fits32 dy then only (op_copy_within dbg v b x0 y0 x1 y1 dx dy)
-      else
-        (* huge destination corners are only generated where the checked sum panics *)
-        if dbg then only (op_copy_within dbg v b x0 y0 x1 y1 dx dy) else UB
+      (* destination corners beyond 32 bits take [wide_copy_within] below *)
+      if fits32 dx && fits32 dy then only (op_copy_within dbg v b x0 y0 x1 y1 dx dy) else UB
   | OTranslate mc mr => only (op_translate v b mc mr)
   | OFlipRows => only (op_flip_rows v b)
   | OFlipCols => only (op_flip_cols v b)
@@ -123,12 +121,28 @@ Definition run_top (dbg : bool) (k : rkind) (v : view) (b : buf) (o : top) : res
       if (c <? N.of_nat (len w))%N then only (Ok (upd (off w + N.to_nat c) x b)) else Panic
   end.
 
+(** copy_within with a destination corner beyond 32 bits: the binary-number path, which
+    also reports what a panic in the middle of the loop leaves behind *)
+Definition wide_copy_within (dbg : bool) (v : view) (b : buf) (o : top) : option (res (bool * buf)) :=
+  match o with
+  | OCopyWithin x0 y0 x1 y1 dx dy =>
+      if fits32 dx && fits32 dy then None else Some (op_copy_within_w dbg v b x0 y0 x1 y1 dx dy)
+  | _ => None
+  end.
+
 Definition ops_model (inp : list N) : list N :=
   match run_parser p_ocase inp with
   | None => BAD_CASE
   | Some c =>
       match oc_receiver c with
       | Ok (k, v) =>
+          match wide_copy_within (oc_dbg c) v (oc_data c) (oc_op c) with
+          | Some (Ok (panicked, b')) =>
+              let ok := if panicked then 0%N else 1%N in
+              if oc_zst c then [ok; N.of_nat (length b')] else ok :: e_Nlist b'
+          | Some Panic => [777770%N]
+          | Some UB => [777771%N]
+          | None =>
           match run_top (oc_dbg c) k v (oc_data c) (oc_op c) with
           (* zero-sized elements: only the outcome and the buffer's length are observable *)
           | Ok (extra, b') => if oc_zst c then [1%N; N.of_nat (length b')]
@@ -136,6 +150,7 @@ Definition ops_model (inp : list N) : list N :=
                               else 1%N :: extra ++ e_Nlist b'
           | Panic => if oc_zst c then [0%N; N.of_nat (length (oc_data c))] else 0%N :: e_Nlist (oc_data c)
           | UB => [777771%N]
+          end
           end
       | _ => [777770%N]
       end
